@@ -1,7 +1,7 @@
 #!/usr/bin/env python3
 """Regenerates DESIGN.md section 5 (per-property rule tables) from the evidence of the last run."""
 import json, re
-ids = ["C%02d" % i for i in range(1, 21) if i != 17]
+ids = ["C%02d" % i for i in range(1, 21)]
 out = ["## 5. Per-property rules as implemented", "",
        "Generated (`tools/gen_design_rules.py`) from the evidence of the current run (`coverage.rules`); \"instances today\" is the",
        "number of obligations the rule produced on the repaired tree, \"min\" the frozen lower bound.", ""]
@@ -17,7 +17,7 @@ for i in ids:
     out += ["", "%d obligations, %d discharged, %d known findings." % (ev['coverage']['obligations'], ev['coverage']['discharged'], len(known)), ""]
 s = open('/verif/DESIGN.md').read()
 a = s.index('## 5. Per-property rules as implemented')
-b = s.index('### C17 — labels and pattern algebra')
+b = s.index('## 6. Findings on the pinned tree')
 s = s[:a] + "\n".join(out) + "\n" + s[b:]
 open('/verif/DESIGN.md', 'w').write(s)
 print("section 5 regenerated for", len(ids), "properties")
